@@ -137,7 +137,19 @@ def itemTags (tr : List Item) : List String :=
   has (fun | .write _ _ _ _ .done => true | _ => false) "write-txdone" ++
   has (fun | .sql _ _ .fail => true | _ => false) "sql-fail" ++
   has (fun | .sql _ 2 .ok => true | _ => false) "first-write-path" ++
-  has (fun | .publish .. => true | _ => false) "publish"
+  has (fun | .publish .. => true | _ => false) "publish" ++
+  -- the first-write path running in a savepoint of an atomic bulk's transaction
+  (if tr.any (fun | .begin t p .ok => p != 0 && tr.any (fun | .sql t' _ _ => t' == t | _ => false) | _ => false)
+   then ["first-write-in-bulk"] else []) ++
+  -- a Rollback issued on a SAVEPOINT after its successful release (ROLLBACK TO a released
+  -- savepoint aborts the outer transaction in Postgres; the fake only answers "done")
+  (let nested := tr.filterMap (fun | .begin t p .ok => if p != 0 then some t else none | _ => none)
+   let rec go : List Item → List Nat → Bool
+     | [], _ => false
+     | .commit t .ok :: rest, done => go rest (if nested.contains t then t :: done else done)
+     | .rollback t _ :: rest, done => done.contains t || go rest done
+     | _ :: rest, done => go rest done
+   if go tr [] then ["rollback-after-savepoint-release"] else [])
 
 def handleEvents : Handler := fun inp out => do
   let inUse ← boolField inp "inUse"
